@@ -75,7 +75,9 @@ PROPS = {
             # the tagged enum (and its Unknown variant) exists only because validation forces __typename onto the abstract type itself
             ('TYPENAME-SAME-TYPE', None), ('TYPENAME-MATRIX', None)],
     'C04': [('GRAMMAR', None), ('WIRE-1', inst_has('ResolvedVariable', 'StoredInputType', 'enum-value', 'floor/variable', 'floor/input', 'floor/oneof')),
-            ('WIRE-2', inst_has('ResolvedVariable', 'StoredInputType')), ('SKIP-NONE', None), ('ONEOF-SHAPE', None),
+            ('WIRE-2', inst_has('ResolvedVariable', 'StoredInputType')),
+            # response fields also carry the attribute, but no given property constrains it there (C01 allows null-vs-absent)
+            ('SKIP-NONE', inst_has('ResolvedVariable', 'StoredInputType', 'floor')), ('ONEOF-SHAPE', None),
             ('VARS-ORIGIN', None), ('TYPES-2', None), ('TYPES-4', None)],
     'C05': [('GRAMMAR', None), ('BODY-CONST', None), ('BODY-IMPL', None), ('INCLUDE-STR', None), ('WIRE-1', inst_has('OPERATION_NAME', 'QUERY')),
             ('BODY-KEYS', None), ('NO-FALLBACK', None), ('SAME-OP', None), ('QUERY-TEXT', None)],
